@@ -102,7 +102,12 @@ def execStep (st : ExecDrvSt) (op : String) (a : KV) : ExecDrvSt × String :=
     | _ => (st, "bad-trace")
   | "ex.rel" =>
     -- a relative path: checked and started file are the same (root-owned, 0755) one; it runs and prints its output
-    let o := safeCmdExecution .resolved (.ok { uid := 0, gid := 0, mode := 0o755 }) (.exits 0 "7\n") 2000
+    -- (variant=bad with a path through a symlinked directory: the file the kernel would start is owned by a non-root
+    --  user and world-writable, so the check refuses it and nothing runs)
+    let viaLink := ((a.str "path" "").splitOn "current/..").length > 1
+    let stt : Stat := if viaLink && a.str "variant" "bad" == "bad" then { uid := 1000, gid := 1000, mode := 0o777 }
+                          else { uid := 0, gid := 0, mode := 0o755 }
+    let o := safeCmdExecution .resolved (.ok stt) (.exits 0 "7\n") 2000
     (exCount st o.ran, s!"run={exFmtRun o.res} good={exB01 o.ran} bad=0")
   | "ex.busy" =>
     -- the file passes the check, the start fails (text file busy): an error, nothing executed; what happens to the
@@ -163,6 +168,14 @@ def execStep (st : ExecDrvSt) (op : String) (a : KV) : ExecDrvSt × String :=
       | .ok (.error _) => (st, "res=err")
       | .err _ => (st, "res=err")
       | .panic s => (st, "res=panic:" ++ panicClass s)
+  | "ex.repeat" =>
+    -- n independent calls of the same failing command: each ends like the single call
+    let o := safeCmdExecution .resolved (.ok { uid := 0, gid := 0, mode := 0o755 })
+      (exBehOf (a.str "beh" "exit3") none) 2000
+    let r := match o.res with
+      | .ok (.ok _) => "ok"
+      | r => exFmtRun r
+    (st, s!"res={r} at={a.int "n" 14} slow=0")
   | "ex.userpair" =>
     -- two calls on one cmd fan from two goroutines: each is a call of its own (CmdFan holds no lock across a command)
     let o := safeCmdExecution .resolved (.ok { uid := 0, gid := 0, mode := 0o755 })
